@@ -156,7 +156,10 @@ func (f *frame) stdlib(i *ssa.Call, full string, args []T, st *State, pc string)
 		g.writeHeap(st, h, "(ptr "+sl.S+")", na.S)
 		return nil, pc, true
 	case "fmt.Errorf", "errors.New":
-		return []T{f.freshErr(st, pc, true)}, pc, true
+		// the dynamic type is a standard-library type, none of the package's own (tags are positive)
+		e := f.freshErr(st, pc, true)
+		g.s.assume("(< (dyn " + e.S + ") 0)")
+		return []T{e}, pc, true
 	case "fmt.Println", "fmt.Printf", "fmt.Print":
 		return []T{g.s.decl("n", "Int"), f.freshErr(st, pc, false)}, pc, true
 	case "fmt.Sprintf":
